@@ -31,3 +31,11 @@ def c17_builtin() -> Monitors:
 
 def c04() -> Monitors:
     return Monitors("C04", [m.c04_transition, m.cov_matrix], [], m.outcome_vector)
+
+
+def c05() -> Monitors:
+    return Monitors("C05", [m.c05_transition, m.cov_matrix], [], m.outcome_vector)
+
+
+def c19() -> Monitors:
+    return Monitors("C19", [m.c19_transition, m.cov_matrix], [], m.outcome_vector)
